@@ -1,5 +1,3 @@
-# storage engine, Vec-backed container models, real 16 shards
-group("eng", family="vec", shrinks={}, overlays={"src/storage/engine.rs": "ovl_engine.rs"})
 
 K("c01_getrange_len3", "eng", ["C01", "C06"], tier="quick", timeout=600,
   desc="GETRANGE on a present 3-byte symbolic string, start/end full-width symbolic isize: reply = Redis getrangeCommand model, value untouched, no panic/overflow",
